@@ -3,13 +3,11 @@ package main
 import (
 	"fmt"
 	"go/ast"
-	"go/constant"
-	"go/parser"
 	"go/token"
+	"go/types"
 	"net/netip"
 	"path/filepath"
 	"regexp"
-	"sort"
 	"strconv"
 	"strings"
 )
@@ -24,22 +22,53 @@ import (
 // GolibsVerif.C06.Pfx.  Everything is read from the current source with go/ast; any
 // construct outside the small subset below is an error (a broken tie), never skipped.
 //
-// Subset of the [N]byte functions (param p, optional named bool result r):
+// The [N]byte functions (N = 4 or 16, parameter p) are run by a symbolic executor
+// (symexec.go, symval.go) in which only the bytes of p are symbolic.  Subset:
 //
-//	stmt  ::= return bexpr | r = bexpr | if bexpr {stmt*} [else {stmt*} | else if …]
-//	        | switch byteterm { case const,… : stmt* … [default: stmt*] }
-//	        | switch { case bexpr,… : stmt* … }
-//	bexpr ::= true | false | r | (bexpr) | !bexpr | bexpr && bexpr | bexpr || bexpr
-//	        | byteterm ==,!= const | p[i] <,<=,>,>= const   (either side)
-//	        | string(p[a:b]) ==,!= "literal"                (either side)
-//	        | g(p)                                          (g another function of the subset)
-//	byteterm ::= p[i] | p[i] & const | const & p[i]
+//	stmt  ::= return e,… | return | x = e | x op= e | x := e | var x [T] [= e] | x++ | x--
+//	        | s.f = e | a[i] = e (local array, constant i) | {stmt*}
+//	        | if [init;] bexpr {stmt*} [else …]
+//	        | switch [init;] [e] { case e,… : stmt* … [default: stmt*] }   (no break/fallthrough)
+//	        | for k, v := range e {…}     (e an array/slice of known length, or an integer)
+//	        | for init; cond; post {…}    (cond must not depend on p)
+//	        | break | continue            (unlabelled, of the innermost loop)
+//	bexpr ::= constants | variables | (e) | !e | e && e | e || e
+//	        | w ==,!= w' where at most one side depends on p  → conjunction of atoms (p[i] & m) == v
+//	        | w <,<=,>,>= c  (w made of whole bytes of p and constants) → F.ge, lexicographic
+//	        | string(p[a:b]) ==,!= "literal", array == array, bytes.Equal, bytes.HasPrefix
+//	        | pfx.Contains(addr), slices.ContainsFunc(table, f)
+//	        | g(p) (another func([N]byte) bool of the package on the same array: by name)
+//	w     ::= p[i] | integer constants and concrete integer arithmetic | w &,|,^,&^ w' | ^w
+//	        | w <<,>> c | T(w) for integer types T
+//	        | binary.BigEndian/LittleEndian.Uint16/32/64(bytes)
+//	        (two different bits of p are never combined by an operator)
+//	values ::= integers, booleans, strings, arrays, slices, structs of these, function
+//	        literals and functions/methods (value receiver) of the package — all inlined,
+//	        no recursion — and package-level variables: unexported, never written or
+//	        address-taken anywhere in the package, read from their initialisers
+//	        (composite literals, append, calls of the package's own constructors)
+//	netip ::= netip.MustParsePrefix("…"), netip.MustParseAddr("…"), netip.PrefixFrom(addr, n),
+//	        Prefix.Contains/Addr/Bits/Masked/IsValid on concrete prefixes,
+//	        netip.AddrFrom4(bytes), netip.AddrFrom16(bytes) (NOT unmapped, as in net/netip),
+//	        Addr.Is4/Is6/Is4In6/IsValid/Unmap/As4/As16/AsSlice.
+//	        pfx.Contains(a) is F.ff when the families differ (net/netip: "an IPv4 address
+//	        will not match an IPv6 prefix; a 4in6 address will not match an IPv4 prefix"),
+//	        else the term prefixF ⟨bytes, bits⟩ of Model/C06F.lean (prefixFAux at an offset
+//	        when a is built from p[12:16] by Unmap).
+//
+// Branches on p become F.ite; loops over tables are unrolled; everything else is computed.
+// The statements after an if/switch are translated once per branch, as before; branches
+// that both fall through are merged only at the end of a loop iteration.
 //
 // Subset of the dispatchers (param a of type netip.Addr):
 //
-//	stmt ::= if cond {stmt*} [else …] | return true | return false
-//	       | return g(a.As4()) | return g(a.As16())
+//	stmt ::= if [a = a.Unmap();] cond {stmt*} [else …] | a = a.Unmap()
+//	       | switch { case cond,… : stmt* … [default: stmt*] }
+//	       | return true | return false | return g(a.As4()) | return g(a.As16())
 //	cond ::= a.IsValid() | a.Is4() | a.Is6() | a.Is4In6() | !cond | cond && cond | cond || cond | (cond)
+//
+// `a = a.Unmap()` is translated (D.unmap), not skipped: it changes which leaf a 4in6 address
+// reaches, and the dispatch obligations of Theorems/C06.lean then fail.
 
 const subnetsPkgDir = "netutil"
 
@@ -57,6 +86,7 @@ type subnetsTr struct {
 	width   map[string]int
 	order   []string
 	pending map[string]bool
+	sx      *sx
 }
 
 func (t *subnetsTr) errf(n ast.Node, format string, a ...any) error {
@@ -78,420 +108,8 @@ func fOr(a, b string) string     { return "(F.or " + a + " " + b + ")" }
 func fIte(c, a, b string) string { return "(F.ite " + c + " " + a + " " + b + ")" }
 func fNot(a string) string       { return fIte(a, fFF, fTT) }
 
-// byteFuncEnv is the state of translating one [N]byte function.
-type byteFuncEnv struct {
-	name   string
-	param  string // the array parameter
-	n      int64  // its length
-	result string // named result, "" if none
-}
-
-func (t *subnetsTr) constInt(e ast.Expr) (int64, error) {
-	switch x := e.(type) {
-	case *ast.ParenExpr:
-		return t.constInt(x.X)
-	case *ast.BasicLit:
-		if x.Kind != token.INT && x.Kind != token.CHAR {
-			return 0, t.errf(e, "constant %s is not an integer or character literal", x.Value)
-		}
-		v := constant.MakeFromLiteral(x.Value, x.Kind, 0)
-		n, ok := constant.Int64Val(constant.ToInt(v))
-		if !ok {
-			return 0, t.errf(e, "constant %s does not fit", x.Value)
-		}
-		return n, nil
-	}
-	return 0, t.errf(e, "expected an integer literal, found %T (named constants and constant expressions are not supported)", e)
-}
-
-func (t *subnetsTr) byteConst(e ast.Expr) (int64, error) {
-	n, err := t.constInt(e)
-	if err != nil {
-		return 0, err
-	}
-	if n < 0 || n > 255 {
-		return 0, t.errf(e, "constant %d overflows byte", n)
-	}
-	return n, nil
-}
-
-func isConstLit(e ast.Expr) bool {
-	switch x := e.(type) {
-	case *ast.ParenExpr:
-		return isConstLit(x.X)
-	case *ast.BasicLit:
-		return x.Kind == token.INT || x.Kind == token.CHAR
-	}
-	return false
-}
-
-// byteTerm recognises p[i] and p[i] & m; it returns the index and the mask.
-func (t *subnetsTr) byteTerm(env *byteFuncEnv, e ast.Expr) (i, m int64, err error) {
-	switch x := e.(type) {
-	case *ast.ParenExpr:
-		return t.byteTerm(env, x.X)
-	case *ast.IndexExpr:
-		id, ok := x.X.(*ast.Ident)
-		if !ok || id.Name != env.param {
-			return 0, 0, t.errf(e, "index of something other than the parameter %s", env.param)
-		}
-		i, err = t.constInt(x.Index)
-		if err != nil {
-			return 0, 0, err
-		}
-		if i < 0 || i >= env.n {
-			return 0, 0, t.errf(e, "index %d out of range for [%d]byte", i, env.n)
-		}
-		return i, 0xFF, nil
-	case *ast.BinaryExpr:
-		if x.Op != token.AND {
-			return 0, 0, t.errf(e, "byte operator %s (only & with a constant is supported)", x.Op)
-		}
-		l, r := x.X, x.Y
-		if isConstLit(l) {
-			l, r = r, l
-		}
-		i, m0, err := t.byteTerm(env, l)
-		if err != nil {
-			return 0, 0, err
-		}
-		c, err := t.byteConst(r)
-		if err != nil {
-			return 0, 0, err
-		}
-		return i, m0 & c, nil
-	}
-	return 0, 0, t.errf(e, "expected %s[i] or %s[i] & const, found %T", env.param, env.param, e)
-}
-
-// sliceString recognises string(p[a:b]) and returns a, b.
-func (t *subnetsTr) sliceString(env *byteFuncEnv, e ast.Expr) (a, b int64, ok bool, err error) {
-	if p, isP := e.(*ast.ParenExpr); isP {
-		return t.sliceString(env, p.X)
-	}
-	call, isCall := e.(*ast.CallExpr)
-	if !isCall {
-		return 0, 0, false, nil
-	}
-	fn, isId := call.Fun.(*ast.Ident)
-	if !isId || fn.Name != "string" || len(call.Args) != 1 {
-		return 0, 0, false, nil
-	}
-	arg := call.Args[0]
-	for {
-		p, isP := arg.(*ast.ParenExpr)
-		if !isP {
-			break
-		}
-		arg = p.X
-	}
-	sl, isSl := arg.(*ast.SliceExpr)
-	if !isSl {
-		return 0, 0, false, t.errf(e, "string(…) of something other than a slice of the parameter")
-	}
-	id, isId := sl.X.(*ast.Ident)
-	if !isId || id.Name != env.param {
-		return 0, 0, false, t.errf(e, "slice of something other than the parameter %s", env.param)
-	}
-	if sl.Slice3 || sl.Max != nil {
-		return 0, 0, false, t.errf(e, "3-index slice")
-	}
-	a, b = 0, env.n
-	if sl.Low != nil {
-		if a, err = t.constInt(sl.Low); err != nil {
-			return 0, 0, false, err
-		}
-	}
-	if sl.High != nil {
-		if b, err = t.constInt(sl.High); err != nil {
-			return 0, 0, false, err
-		}
-	}
-	if a < 0 || a > b || b > env.n {
-		return 0, 0, false, t.errf(e, "slice bounds [%d:%d] invalid for [%d]byte", a, b, env.n)
-	}
-	return a, b, true, nil
-}
-
-func stringLit(e ast.Expr) (s string, ok bool) {
-	if p, isP := e.(*ast.ParenExpr); isP {
-		return stringLit(p.X)
-	}
-	bl, isBl := e.(*ast.BasicLit)
-	if !isBl || bl.Kind != token.STRING {
-		return "", false
-	}
-	s, err := strconv.Unquote(bl.Value)
-	return s, err == nil
-}
-
-// bexpr translates a boolean expression; ok is the current formula of the named result.
-func (t *subnetsTr) bexpr(env *byteFuncEnv, e ast.Expr, ok string) (string, error) {
-	switch x := e.(type) {
-	case *ast.ParenExpr:
-		return t.bexpr(env, x.X, ok)
-	case *ast.Ident:
-		switch {
-		case x.Name == "true":
-			return fTT, nil
-		case x.Name == "false":
-			return fFF, nil
-		case env.result != "" && x.Name == env.result:
-			return ok, nil
-		}
-		return "", t.errf(e, "identifier %s", x.Name)
-	case *ast.UnaryExpr:
-		if x.Op != token.NOT {
-			return "", t.errf(e, "unary operator %s", x.Op)
-		}
-		a, err := t.bexpr(env, x.X, ok)
-		if err != nil {
-			return "", err
-		}
-		return fNot(a), nil
-	case *ast.CallExpr:
-		fn, isId := x.Fun.(*ast.Ident)
-		if !isId || len(x.Args) != 1 {
-			return "", t.errf(e, "call of something other than a byte-array predicate of this package")
-		}
-		arg, isArgId := x.Args[0].(*ast.Ident)
-		if !isArgId || arg.Name != env.param {
-			return "", t.errf(e, "call %s(…) with an argument other than the parameter %s itself", fn.Name, env.param)
-		}
-		if err := t.byteFunc(fn.Name); err != nil {
-			return "", err
-		}
-		if int64(t.width[fn.Name]) != env.n {
-			return "", t.errf(e, "call %s: array length mismatch", fn.Name)
-		}
-		return fn.Name, nil
-	case *ast.BinaryExpr:
-		switch x.Op {
-		case token.LAND, token.LOR:
-			a, err := t.bexpr(env, x.X, ok)
-			if err != nil {
-				return "", err
-			}
-			b, err := t.bexpr(env, x.Y, ok)
-			if err != nil {
-				return "", err
-			}
-			if x.Op == token.LAND {
-				return fAnd(a, b), nil
-			}
-			return fOr(a, b), nil
-		case token.EQL, token.NEQ, token.LSS, token.LEQ, token.GTR, token.GEQ:
-			return t.comparison(env, x)
-		}
-		return "", t.errf(e, "boolean operator %s", x.Op)
-	}
-	return "", t.errf(e, "expression %T", e)
-}
-
-func (t *subnetsTr) comparison(env *byteFuncEnv, x *ast.BinaryExpr) (string, error) {
-	l, r, op := x.X, x.Y, x.Op
-	// string(p[a:b]) ==/!= "lit", either side
-	if _, isLit := stringLit(l); isLit {
-		l, r = r, l
-	}
-	if lit, isLit := stringLit(r); isLit {
-		a, b, isSl, err := t.sliceString(env, l)
-		if err != nil {
-			return "", err
-		}
-		if !isSl {
-			return "", t.errf(x, "string literal compared with something other than string(%s[a:b])", env.param)
-		}
-		if op != token.EQL && op != token.NEQ {
-			return "", t.errf(x, "ordering comparison of strings")
-		}
-		f := fTT
-		if int64(len(lit)) != b-a {
-			// strings of different lengths are never equal
-			f = fFF
-		} else {
-			for j := len(lit) - 1; j >= 0; j-- {
-				at := fAtom(a+int64(j), 0xFF, int64(lit[j]))
-				if f == fTT {
-					f = at
-				} else {
-					f = fAnd(at, f)
-				}
-			}
-		}
-		if op == token.NEQ {
-			f = fNot(f)
-		}
-		return f, nil
-	}
-	// byteterm op const, either side
-	if isConstLit(l) {
-		l, r = r, l
-		switch op {
-		case token.LSS:
-			op = token.GTR
-		case token.LEQ:
-			op = token.GEQ
-		case token.GTR:
-			op = token.LSS
-		case token.GEQ:
-			op = token.LEQ
-		}
-	}
-	if !isConstLit(r) {
-		return "", t.errf(x, "comparison whose operands are not (byte term, constant)")
-	}
-	i, m, err := t.byteTerm(env, l)
-	if err != nil {
-		return "", err
-	}
-	c, err := t.byteConst(r)
-	if err != nil {
-		return "", err
-	}
-	switch op {
-	case token.EQL:
-		return fAtom(i, m, c), nil
-	case token.NEQ:
-		return fNot(fAtom(i, m, c)), nil
-	}
-	if m != 0xFF {
-		return "", t.errf(x, "ordering comparison of a masked byte")
-	}
-	switch op {
-	case token.GEQ:
-		return fGe(i, c), nil
-	case token.GTR:
-		return fGe(i, c+1), nil
-	case token.LSS:
-		return fNot(fGe(i, c)), nil
-	case token.LEQ:
-		return fNot(fGe(i, c+1)), nil
-	}
-	return "", t.errf(x, "comparison operator %s", op)
-}
-
-// stmts translates a statement list followed by the continuation rest (the statements
-// that run after the enclosing construct); the result is the formula of the value the
-// function returns.
-func (t *subnetsTr) stmts(env *byteFuncEnv, list []ast.Stmt, rest []ast.Stmt, ok string, end ast.Node) (string, error) {
-	if len(list) == 0 {
-		if len(rest) == 0 {
-			return "", t.errf(end, "control reaches the end of %s without a return", env.name)
-		}
-		return t.stmts(env, rest, nil, ok, end)
-	}
-	s, tail := list[0], append(append([]ast.Stmt{}, list[1:]...), rest...)
-	switch x := s.(type) {
-	case *ast.ReturnStmt:
-		if len(x.Results) != 1 {
-			return "", t.errf(s, "return with %d results", len(x.Results))
-		}
-		return t.bexpr(env, x.Results[0], ok)
-	case *ast.AssignStmt:
-		if x.Tok != token.ASSIGN || len(x.Lhs) != 1 || len(x.Rhs) != 1 {
-			return "", t.errf(s, "assignment form %s", x.Tok)
-		}
-		id, isId := x.Lhs[0].(*ast.Ident)
-		if !isId || env.result == "" || id.Name != env.result {
-			return "", t.errf(s, "assignment to something other than the named result")
-		}
-		nv, err := t.bexpr(env, x.Rhs[0], ok)
-		if err != nil {
-			return "", err
-		}
-		return t.stmts(env, tail, nil, nv, end)
-	case *ast.BlockStmt:
-		return t.stmts(env, x.List, tail, ok, end)
-	case *ast.IfStmt:
-		if x.Init != nil {
-			return "", t.errf(s, "if with an init statement")
-		}
-		c, err := t.bexpr(env, x.Cond, ok)
-		if err != nil {
-			return "", err
-		}
-		th, err := t.stmts(env, x.Body.List, tail, ok, end)
-		if err != nil {
-			return "", err
-		}
-		var elseList []ast.Stmt
-		if x.Else != nil {
-			elseList = []ast.Stmt{x.Else}
-		}
-		el, err := t.stmts(env, elseList, tail, ok, end)
-		if err != nil {
-			return "", err
-		}
-		return fIte(c, th, el), nil
-	case *ast.SwitchStmt:
-		if x.Init != nil {
-			return "", t.errf(s, "switch with an init statement")
-		}
-		var ti, tm int64
-		if x.Tag != nil {
-			var err error
-			if ti, tm, err = t.byteTerm(env, x.Tag); err != nil {
-				return "", err
-			}
-		}
-		type arm struct{ cond, body string }
-		var arms []arm
-		var deflt []ast.Stmt // statements of the default clause (nil: no default)
-		haveDefault := false
-		for _, cs := range x.Body.List {
-			cc := cs.(*ast.CaseClause)
-			for _, bs := range cc.Body {
-				if br, isBr := bs.(*ast.BranchStmt); isBr {
-					return "", t.errf(br, "%s in a switch", br.Tok)
-				}
-			}
-			if cc.List == nil {
-				haveDefault = true
-				deflt = cc.Body
-				continue
-			}
-			cond := ""
-			for _, ce := range cc.List {
-				var one string
-				if x.Tag != nil {
-					c, err := t.byteConst(ce)
-					if err != nil {
-						return "", err
-					}
-					one = fAtom(ti, tm, c)
-				} else {
-					var err error
-					if one, err = t.bexpr(env, ce, ok); err != nil {
-						return "", err
-					}
-				}
-				if cond == "" {
-					cond = one
-				} else {
-					cond = fOr(cond, one)
-				}
-			}
-			body, err := t.stmts(env, cc.Body, tail, ok, end)
-			if err != nil {
-				return "", err
-			}
-			arms = append(arms, arm{cond, body})
-		}
-		_ = haveDefault
-		res, err := t.stmts(env, deflt, tail, ok, end)
-		if err != nil {
-			return "", err
-		}
-		for k := len(arms) - 1; k >= 0; k-- {
-			res = fIte(arms[k].cond, arms[k].body, res)
-		}
-		return res, nil
-	}
-	return "", t.errf(s, "statement %T", s)
-}
-
-// byteFunc translates the [N]byte predicate called name (memoised; callees first).
+// byteFunc translates the [N]byte predicate called name with the symbolic executor of
+// symexec.go (memoised; predicates it calls on the same array come first).
 func (t *subnetsTr) byteFunc(name string) error {
 	if _, ok := t.done[name]; ok {
 		return nil
@@ -505,45 +123,42 @@ func (t *subnetsTr) byteFunc(name string) error {
 	}
 	t.pending[name] = true
 	defer delete(t.pending, name)
+	x := t.sx
+	if x.dupFuncs[name] {
+		return t.errf(fd, "%s is declared more than once", name)
+	}
 	if fd.Recv != nil || fd.Type.TypeParams != nil || fd.Body == nil {
 		return t.errf(fd, "%s is a method, generic or body-less", name)
 	}
-	ps := fd.Type.Params.List
-	if len(ps) != 1 || len(ps[0].Names) != 1 {
-		return t.errf(fd, "%s must have exactly one parameter", name)
+	n, isPred := x.bytePredicate(fd)
+	if !isPred {
+		return t.errf(fd, "%s is not a func([4]byte) bool or func([16]byte) bool", name)
 	}
-	at, isArr := ps[0].Type.(*ast.ArrayType)
-	if !isArr || at.Len == nil {
-		return t.errf(fd, "parameter of %s is not a fixed-size array", name)
+	fo := x.info.Defs[fd.Name].(*types.Func)
+	sig := fo.Type().(*types.Signature)
+	pt := sig.Params().At(0).Type()
+	arg := vSeq{typ: pt, array: true}
+	for i := 0; i < n; i++ {
+		arg.elems = append(arg.elems, symByte(i, pt.Underlying().(*types.Array).Elem()))
 	}
-	if el, isId := at.Elt.(*ast.Ident); !isId || (el.Name != "byte" && el.Name != "uint8") {
-		return t.errf(fd, "parameter of %s is not an array of byte", name)
-	}
-	n, err := t.constInt(at.Len)
+	fb, err := x.declBody(fo, fd)
 	if err != nil {
 		return err
 	}
-	if n != 4 && n != 16 {
-		return t.errf(fd, "array length %d (4 or 16 expected)", n)
-	}
-	env := &byteFuncEnv{name: name, param: ps[0].Names[0].Name, n: n}
-	rs := fd.Type.Results
-	if rs == nil || len(rs.List) != 1 || len(rs.List[0].Names) > 1 {
-		return t.errf(fd, "%s must have exactly one result", name)
-	}
-	if rt, isId := rs.List[0].Type.(*ast.Ident); !isId || rt.Name != "bool" {
-		return t.errf(fd, "result of %s is not bool", name)
-	}
-	if len(rs.List[0].Names) == 1 {
-		env.result = rs.List[0].Names[0].Name
-	}
-	// the named result starts as false
-	f, err := t.stmts(env, fd.Body.List, nil, fFF, fd.Body)
+	// the executor's state belongs to the function being translated
+	saveP, saveN, saveS := x.param, x.n, x.stack
+	x.param, x.n, x.stack = sig.Params().At(0), n, nil
+	res, err := x.call(fb, nil, []value{arg}, fd)
+	x.param, x.n, x.stack = saveP, saveN, saveS
 	if err != nil {
 		return err
 	}
-	t.done[name] = f
-	t.width[name] = int(n)
+	b, isBool := res.(vBool)
+	if !isBool {
+		return t.errf(fd, "%s does not return a boolean", name)
+	}
+	t.done[name] = b.f
+	t.width[name] = n
 	t.order = append(t.order, name)
 	return nil
 }
@@ -599,6 +214,39 @@ func (t *subnetsTr) dcond(env *dispEnv, e ast.Expr, th, el string) (string, erro
 	return "", t.errf(e, "dispatch condition %T", e)
 }
 
+// dcondList is the disjunction of the expressions of one `case` clause.
+func (t *subnetsTr) dcondList(env *dispEnv, list []ast.Expr, th, el string) (string, error) {
+	res := el
+	for k := len(list) - 1; k >= 0; k-- {
+		var err error
+		if res, err = t.dcond(env, list[k], th, res); err != nil {
+			return "", err
+		}
+	}
+	return res, nil
+}
+
+// isUnmapAssign recognises `a = a.Unmap()` for the parameter a.
+func (t *subnetsTr) isUnmapAssign(env *dispEnv, s ast.Stmt) bool {
+	as, ok := s.(*ast.AssignStmt)
+	if !ok || as.Tok != token.ASSIGN || len(as.Lhs) != 1 || len(as.Rhs) != 1 {
+		return false
+	}
+	if id, isID := as.Lhs[0].(*ast.Ident); !isID || id.Name != env.param {
+		return false
+	}
+	call, isCall := as.Rhs[0].(*ast.CallExpr)
+	if !isCall || len(call.Args) != 0 {
+		return false
+	}
+	sel, isSel := call.Fun.(*ast.SelectorExpr)
+	if !isSel || sel.Sel.Name != "Unmap" {
+		return false
+	}
+	id, isID := sel.X.(*ast.Ident)
+	return isID && id.Name == env.param
+}
+
 func (t *subnetsTr) dstmts(env *dispEnv, list []ast.Stmt, rest []ast.Stmt, end ast.Node) (string, error) {
 	if len(list) == 0 {
 		if len(rest) == 0 {
@@ -610,9 +258,30 @@ func (t *subnetsTr) dstmts(env *dispEnv, list []ast.Stmt, rest []ast.Stmt, end a
 	switch x := s.(type) {
 	case *ast.BlockStmt:
 		return t.dstmts(env, x.List, tail, end)
+	case *ast.AssignStmt:
+		if !t.isUnmapAssign(env, x) {
+			return "", t.errf(s, "assignment other than %s = %s.Unmap() in a dispatcher", env.param, env.param)
+		}
+		// everything that runs afterwards sees the unmapped address
+		inner, err := t.dstmts(env, tail, nil, end)
+		if err != nil {
+			return "", err
+		}
+		return "(D.unmap " + inner + ")", nil
 	case *ast.IfStmt:
 		if x.Init != nil {
-			return "", t.errf(s, "if with an init statement")
+			if !t.isUnmapAssign(env, x.Init) {
+				return "", t.errf(x.Init, "if with an init statement other than %s = %s.Unmap()", env.param, env.param)
+			}
+			// `if a = a.Unmap(); c {…} else {…}; tail` is `a = a.Unmap(); if c {…} else {…}; tail`:
+			// the assignment is to the parameter, not to a variable scoped to the if
+			cp := *x
+			cp.Init = nil
+			inner, err := t.dstmts(env, append([]ast.Stmt{&cp}, tail...), nil, end)
+			if err != nil {
+				return "", err
+			}
+			return "(D.unmap " + inner + ")", nil
 		}
 		th, err := t.dstmts(env, x.Body.List, tail, end)
 		if err != nil {
@@ -627,6 +296,50 @@ func (t *subnetsTr) dstmts(env *dispEnv, list []ast.Stmt, rest []ast.Stmt, end a
 			return "", err
 		}
 		return t.dcond(env, x.Cond, th, el)
+	case *ast.SwitchStmt:
+		if x.Init != nil || x.Tag != nil {
+			return "", t.errf(s, "switch with an init statement or a tag in a dispatcher")
+		}
+		var deflt []ast.Stmt
+		type arm struct {
+			conds []ast.Expr
+			body  []ast.Stmt
+		}
+		var arms []arm
+		for _, cs := range x.Body.List {
+			cc := cs.(*ast.CaseClause)
+			var bad *ast.BranchStmt
+			for _, bs := range cc.Body {
+				ast.Inspect(bs, func(n ast.Node) bool {
+					if br, isBr := n.(*ast.BranchStmt); isBr && bad == nil {
+						bad = br
+					}
+					return true
+				})
+			}
+			if bad != nil {
+				return "", t.errf(bad, "%s in a switch", bad.Tok)
+			}
+			if cc.List == nil {
+				deflt = cc.Body
+				continue
+			}
+			arms = append(arms, arm{cc.List, cc.Body})
+		}
+		res, err := t.dstmts(env, deflt, tail, end)
+		if err != nil {
+			return "", err
+		}
+		for k := len(arms) - 1; k >= 0; k-- {
+			body, err := t.dstmts(env, arms[k].body, tail, end)
+			if err != nil {
+				return "", err
+			}
+			if res, err = t.dcondList(env, arms[k].conds, body, res); err != nil {
+				return "", err
+			}
+		}
+		return res, nil
 	case *ast.ReturnStmt:
 		if len(x.Results) != 1 {
 			return "", t.errf(s, "return with %d results", len(x.Results))
@@ -746,18 +459,13 @@ func (t *subnetsTr) docPrefixes(fd *ast.FuncDecl) ([]netip.Prefix, []string, err
 // ---------------------------------------------------------------- driver
 
 func genSubnets(repo string) (string, error) {
-	t := &subnetsTr{fset: token.NewFileSet(), decls: map[string]*ast.FuncDecl{}, done: map[string]string{},
+	pkg, info, fset, files, err := typeCheckDir(filepath.Join(repo, subnetsPkgDir))
+	if err != nil {
+		return "", err
+	}
+	t := &subnetsTr{fset: fset, decls: map[string]*ast.FuncDecl{}, done: map[string]string{},
 		width: map[string]int{}, pending: map[string]bool{}}
-	matches, _ := filepath.Glob(filepath.Join(repo, subnetsPkgDir, "*.go"))
-	sort.Strings(matches)
-	for _, m := range matches {
-		if strings.HasSuffix(m, "_test.go") || strings.HasSuffix(m, "_verif.go") {
-			continue
-		}
-		f, err := parser.ParseFile(t.fset, m, nil, parser.ParseComments)
-		if err != nil {
-			return "", err
-		}
+	for _, f := range files {
 		for _, d := range f.Decls {
 			fd, ok := d.(*ast.FuncDecl)
 			if !ok || fd.Recv != nil {
@@ -775,6 +483,7 @@ func genSubnets(repo string) (string, error) {
 			t.decls[fd.Name.Name] = fd
 		}
 	}
+	t.sx = newSx(t, pkg, info, files)
 	var b strings.Builder
 	b.WriteString("import GolibsVerif.Model.C06F\n\nnamespace GolibsVerif.Gen.Subnets\nopen GolibsVerif.C06\n\n")
 	for _, n := range subnetByteFuncs {
